@@ -162,3 +162,64 @@ func Reachable(start *ssa.BasicBlock, stop func(*ssa.BasicBlock) bool) map[*ssa.
 	}
 	return seen
 }
+
+// Loop is a natural loop: Header dominates every block of Blocks, and every block of
+// Blocks reaches a back edge to Header without leaving the loop.
+type Loop struct {
+	Header *ssa.BasicBlock
+	Blocks map[*ssa.BasicBlock]bool
+}
+
+// NaturalLoops computes the natural loops of fn (loops sharing a header are merged).
+func NaturalLoops(fn *ssa.Function) []*Loop {
+	byHeader := map[*ssa.BasicBlock]*Loop{}
+	var order []*ssa.BasicBlock
+	for _, n := range fn.Blocks {
+		for _, h := range n.Succs {
+			if !h.Dominates(n) {
+				continue
+			}
+			l := byHeader[h]
+			if l == nil {
+				l = &Loop{Header: h, Blocks: map[*ssa.BasicBlock]bool{h: true}}
+				byHeader[h] = l
+				order = append(order, h)
+			}
+			// blocks that reach n without passing h
+			work := []*ssa.BasicBlock{n}
+			for len(work) > 0 {
+				b := work[len(work)-1]
+				work = work[:len(work)-1]
+				if l.Blocks[b] {
+					continue
+				}
+				l.Blocks[b] = true
+				work = append(work, b.Preds...)
+			}
+		}
+	}
+	var out []*Loop
+	for _, h := range order {
+		out = append(out, byHeader[h])
+	}
+	return out
+}
+
+// SameIterationReach: block to is reachable from block from without re-entering the
+// header of the innermost loop that contains both (i.e. within one iteration of it). When
+// no loop contains both, plain reachability.
+func SameIterationReach(fn *ssa.Function, from, to *ssa.BasicBlock) bool {
+	var best *Loop
+	for _, l := range NaturalLoops(fn) {
+		if l.Blocks[from] && l.Blocks[to] && (best == nil || len(l.Blocks) < len(best.Blocks)) {
+			best = l
+		}
+	}
+	if from == to {
+		return true
+	}
+	if best == nil {
+		return Reachable(from, nil)[to]
+	}
+	return Reachable(from, func(b *ssa.BasicBlock) bool { return b == best.Header })[to]
+}
